@@ -28,6 +28,11 @@ class HippoLLSDBaseFormatter(base_llsd.base.LLSDBaseFormatter):
         # bytes subclasses have to be mapped explicitly, the lookup is by exact type
         self.type_map[JankStringyBytes] = self.BINARY
         self.type_map[RawBytes] = self.BINARY
+        # Aware datetimes (what the binary parser returns) must be rendered as the naive UTC
+        # instant, the textual formats have no way to express an offset ("...+00:00Z" is invalid)
+        date_formatter = self.type_map[datetime.datetime]
+        self.type_map[datetime.datetime] = lambda v: date_formatter(
+            v.astimezone(datetime.timezone.utc).replace(tzinfo=None) if v.tzinfo is not None else v)
 
     def TUPLECOORD(self, v: TupleCoord):
         return self.ARRAY(v.data())
